@@ -22,10 +22,11 @@ import (
 
 func TestMain(m *testing.M) {
 	evid.Main(m, "C06", "exploration",
-		"a translatable query Q (every query text shipped with the tree that translates, plus typed multi-clause read queries: MATCH/OPTIONAL MATCH patterns with path variables, expansions and shortest paths, WHERE with parameters, quantifiers and pattern predicates, UNWIND, WITH aliases/aggregates/WHERE, ORDER BY on aliases, SKIP/LIMIT) x a renaming rho of its binding classes (pattern/UNWIND/quantifier variables, WITH and RETURN aliases, parameters; classes come from an openCypher scope analysis of the parsed model; rho is injective within every scope) into benign names, translator identifiers (harvested from the golden SQL and tracking.go: n0 e0 s0 i0 pi0 ep0 path depth root_id ...), SQL keywords, case variants and cross-namespace collisions; (sweep) five systematic hostile renamings of every translatable shipped query; rho is applied to the MODEL and, as a cross-check, the renamed model is emitted, re-parsed, re-analysed (same binding structure) and must translate identically. Oracle: lex SQL(Q) and SQL(rho Q) as PostgreSQL; tokens equal except the output-column labels of the outermost SELECT (`AS <label>`) and bare ORDER BY references to such a label in the outermost query, which map by rho; a bare ORDER BY reference must not be a PostgreSQL reserved word nor ambiguous under case folding; emitted parameter maps (keys pi<i>, generated) DeepEqual with the input values keyed by rho(name); both translate or both fail with the same error up to names; no panic. Non-trivial = both translate and rho newly sends a class to a translator identifier or SQL keyword, or newly makes a parameter name equal to a variable/alias name, or an alias equal to a variable of an enclosing/earlier scope, or two visible names equal up to case; distinct by (query shape = feature set + clause skeleton, renaming classes).",
+		"a translatable query Q (corpus/sweep: every query text shipped with the tree that translates; gen: typed multi-clause read queries - MATCH/OPTIONAL MATCH patterns with path variables, expansions and shortest paths, WHERE with parameters, quantifiers and pattern predicates, UNWIND, WITH aliases/aggregates/WHERE, ORDER BY on aliases, SKIP/LIMIT) x a renaming rho of its binding classes (pattern/UNWIND/quantifier variables, WITH and RETURN aliases, parameters; classes come from an openCypher scope analysis of the parsed model; rho keeps every scope injective; while the two open findings are listed rho is additionally a bijection on symbols and aliases stay apart from visible variables) into benign names, translator identifiers (harvested from the golden SQL and tracking.go: n0 e0 s0 i0 pi0 ep0 path depth root_id ...), SQL keywords, case variants and cross-namespace collisions; sweep = five systematic hostile renamings of every shipped query. rho is applied to the MODEL; as a cross-check the renamed model is emitted, re-parsed, re-analysed (same binding structure) and must translate identically. Oracle: lex SQL(Q) and SQL(rho Q) as PostgreSQL; tokens equal except the output-column labels of the outermost SELECT (AS <label>) and bare ORDER BY references to such a label, which map by rho; a bare ORDER BY reference must not be a PostgreSQL reserved word nor ambiguous under case folding; emitted parameter maps (keys pi<i>, generated, never user names) DeepEqual with the input values keyed by rho(name); both translate or both fail with the same error up to names; no panic. Non-trivial = both translate and rho newly sends a class to a translator identifier or SQL keyword, or newly makes a parameter name equal to a variable/alias name, or an alias equal to a variable of another scope, or two names equal up to case; distinct by (query shape = part count + feature set + binding-kind counts, set of renaming classes).",
 		"the scope analysis (props/c06/scope_test.go) implements openCypher scoping; its output is cross-checked per case by re-parsing the emitted renamed query and comparing binding structures",
-		"names are restricted to [A-Za-z_][A-Za-z0-9_]* that DAWGS's parser accepts unescaped as variable, alias and parameter (names that need backticks belong to C04)",
-		"SQL is judged by an independent PostgreSQL lexer (verif/sqltok); which positions carry user names was derived from translate/projection.go (buildExternalProjection: tail projection aliases; rewriteOrderByProjectionAlias: ORDER BY references to a projection alias)")
+		"new names are restricted to [A-Za-z_][A-Za-z0-9_]* that DAWGS's parser accepts unescaped as variable, alias and parameter (names that need backticks belong to C04)",
+		"SQL is judged by an independent PostgreSQL lexer (verif/sqltok); which positions carry user names was derived from translate/projection.go (buildExternalProjection: tail projection aliases; rewriteOrderByProjectionAlias: ORDER BY references to a projection alias)",
+		"a translation whose output differs between two runs on the same input is skipped (C05 decides determinism)")
 }
 
 // Case is the replay format.
@@ -466,8 +467,8 @@ func oracle(c Case) (evid.Info, error) {
 		info.Skip = "inadmissible-renaming"
 		return info, nil
 	}
-	for _, n := range names {
-		if !identRe.MatchString(n) {
+	for i, n := range names {
+		if n != an0.classes[i].Orig && !identRe.MatchString(n) {
 			info.Skip = "illegal-name"
 			return info, nil
 		}
@@ -573,6 +574,13 @@ func oracle(c Case) (evid.Info, error) {
 		}
 	}
 	if err := compareSQL(r0.SQL, r1.SQL, ret, names); err != nil {
+		// a translation that is not a function of its input is C05's business, not a naming effect
+		if qa, e := xlate.Parse(c.Query); e == nil {
+			if ra, e := translateNamed(qa, vals0); e == nil && ra.SQL != r0.SQL {
+				info.Skip = "nondeterministic-translation"
+				return info, nil
+			}
+		}
 		return info, fmt.Errorf("%v\n  Q:          %s\n  rho Q:      %s\n  SQL(Q):     %s\n  SQL(rho Q): %s", err, c.Query, text1, r0.SQL, r1.SQL)
 	}
 	if !reflect.DeepEqual(r0.Params, r1.Params) {
@@ -582,9 +590,12 @@ func oracle(c Case) (evid.Info, error) {
 		return info, fmt.Errorf("%v\n  rho Q:      %s\n  SQL(rho Q): %s", err, text1, r1.SQL)
 	}
 	info.Classes = append(info.Classes, "translated")
+	var feats []string
 	for f := range an0.feats {
-		info.Classes = append(info.Classes, "feat="+f)
+		feats = append(feats, "feat="+f)
 	}
+	sort.Strings(feats)
+	info.Classes = append(info.Classes, feats...)
 	if len(r0.Params) > 0 {
 		info.Classes = append(info.Classes, "sql-has-parameters")
 	}
@@ -761,12 +772,16 @@ func genNames(t *rapid.T, an *analysis) []string {
 			names[i] = rapid.SampledFrom(p.benign).Draw(t, "ben")
 		case "case":
 			j := rapid.IntRange(0, len(an.classes)-1).Draw(t, "of")
-			names[i] = flipCase(names[j])
+			if v := flipCase(names[j]); identRe.MatchString(v) {
+				names[i] = v
+			}
 		case "collide":
 			// the name of a class from another namespace / scope
 			j := rapid.IntRange(0, len(an.classes)-1).Draw(t, "with")
 			if j != i && (an.classes[j].Kind == kParam) != (c.Kind == kParam) || j != i && rapid.Bool().Draw(t, "anyScope") {
-				names[i] = names[j]
+				if identRe.MatchString(names[j]) {
+					names[i] = names[j]
+				}
 			}
 		}
 	}
@@ -864,7 +879,9 @@ func sweepNames(an *analysis, mode int) []string {
 					}
 				}
 			} else if i%2 == 1 {
-				names[i] = flipCase(names[i-1])
+				if v := flipCase(names[i-1]); identRe.MatchString(v) {
+					names[i] = v
+				}
 			}
 		}
 	}
